@@ -41,6 +41,7 @@ import (
 	"istio.io/istio/pkg/config/protocol"
 	"istio.io/istio/pkg/config/schema/kind"
 	"istio.io/istio/pkg/log"
+	"istio.io/istio/pkg/maps"
 	"istio.io/istio/pkg/security"
 	"istio.io/istio/pkg/slices"
 	netutil "istio.io/istio/pkg/util/net"
@@ -147,6 +148,9 @@ func (configgen *ConfigGeneratorImpl) BuildDeltaClusters(proxy *model.Proxy, upd
 
 		deletedClusters.InsertAll(deleted...)
 	}
+	// The services were collected while ranging over sets and maps; build their clusters in the order of the
+	// host names, so that the response does not depend on iteration order.
+	services = slices.SortBy(services, func(s *model.Service) host.Name { return s.Hostname })
 	envoyFilterPatches := updates.Push.EnvoyFilters(proxy)
 	clusters, log := configgen.buildClusters(proxy, updates, services, envoyFilterPatches)
 	// DeletedClusters contains list of all subset clusters for the deleted DR or updated DR.
@@ -729,7 +733,8 @@ func buildInboundClustersFromServiceInstances(cb *ClusterBuilder, proxy *model.P
 		bind = ""
 	}
 	// For each workload port, we will construct a cluster
-	for epPort, instances := range clustersToBuild {
+	// in the order of the ports: the CDS response must not depend on map iteration order
+	for epPort, instances := range maps.SeqStable(clustersToBuild) {
 		if ingressPortListSet.Contains(int(instances[0].Port.TargetPort)) {
 			// here if port is declared in service and sidecar ingress both, we continue to take the one on sidecar + other service ports
 			// e.g. 1,2, 3 in service and 3,4 in sidecar ingress,
